@@ -522,3 +522,246 @@ Fixpoint rw_check (s : rwstate) (steps : list (rwop * sobs)) : bool :=
   | (o, ob) :: r => let '(s', y) := rw_step s o in sobs_eqb (rw_view s' y) ob && rw_check s' r
   end.
 Definition ok_rwlock (c : option Z * list (rwop * sobs)) : bool := rw_check (rw_init (fst c)) (snd c).
+
+(* ================================================================== *)
+(** * Concurrency limiters  (components/server/concurrency.py) *)
+Inductive ckind := KFixed | KDynamic | KWeighted.
+
+Record cstate := {
+  c_kind : ckind;
+  c_limit : Z;                     (* _max_concurrent / _current_limit / _total_capacity *)
+  c_active : Z;                    (* _active / _used_capacity *)
+  c_min : Z; c_max : option Z;     (* DynamicConcurrency bounds *)
+}.
+Definition c_init (k : ckind) (limit mn : Z) (mx : option Z) : cstate :=
+  {| c_kind := k; c_limit := limit; c_active := 0; c_min := mn; c_max := mx |}.
+
+Inductive cop := CAcquire (w : Z) | CRelease (w : Z) | CHas (w : Z) | CSetLimit (n : Z) | CScaleUp (n : Z) | CScaleDown (n : Z).
+Inductive cres := CTrue | CFalse | CErr | CNone.
+
+Definition c_with (s : cstate) (limit active : Z) : cstate :=
+  {| c_kind := c_kind s; c_limit := limit; c_active := active; c_min := c_min s; c_max := c_max s |}.
+
+Definition c_clamp (s : cstate) (n : Z) : Z :=
+  let c := Z.max (c_min s) n in match c_max s with None => c | Some m => Z.min m c end.
+
+Definition c_step (s : cstate) (o : cop) : cstate * cres :=
+  match c_kind s, o with
+  | KWeighted, CAcquire w =>
+      if w <? 1 then (s, CErr)
+      else if c_active s + w >? c_limit s then (s, CFalse)
+      else (c_with s (c_limit s) (c_active s + w), CTrue)
+  | KWeighted, CRelease w =>
+      if w <? 1 then (s, CErr) else (c_with s (c_limit s) (Z.max 0 (c_active s - w)), CNone)
+  | KWeighted, CHas w => (s, if c_active s + w <=? c_limit s then CTrue else CFalse)
+  | _, CAcquire _ =>
+      if c_active s >=? c_limit s then (s, CFalse) else (c_with s (c_limit s) (c_active s + 1), CTrue)
+  | _, CRelease _ => (c_with s (c_limit s) (Z.max 0 (c_active s - 1)), CNone)
+  | _, CHas _ => (s, if c_active s <? c_limit s then CTrue else CFalse)
+  | KDynamic, CSetLimit n => (c_with s (c_clamp s n) (c_active s), CNone)
+  | KDynamic, CScaleUp n => (c_with s (c_clamp s (c_limit s + n)) (c_active s), CNone)
+  | KDynamic, CScaleDown n => (c_with s (c_clamp s (c_limit s - n)) (c_active s), CNone)
+  | _, _ => (s, CErr)               (* set_limit/scale_* exist only on DynamicConcurrency *)
+  end.
+
+Fixpoint c_run (s : cstate) (ops : list cop) : cstate :=
+  match ops with [] => s | o :: r => c_run (fst (c_step s o)) r end.
+
+(** [available] property *)
+Definition c_available (s : cstate) : Z :=
+  match c_kind s with KDynamic => Z.max 0 (c_limit s - c_active s) | _ => c_limit s - c_active s end.
+
+Definition cres_code (r : cres) : Z := match r with CTrue => 1 | CFalse => 0 | CErr => 2 | CNone => 3 end.
+(** observation: (result, active, available, limit) *)
+Fixpoint c_check (s : cstate) (steps : list (cop * (Z * Z * Z * Z))) : bool :=
+  match steps with
+  | [] => true
+  | (o, (r, a, av, l)) :: rest =>
+      let '(s', res) := c_step s o in
+      (cres_code res =? r) && (c_active s' =? a) && (c_available s' =? av) && (c_limit s' =? l) && c_check s' rest
+  end.
+Definition ok_concurrency (c : ckind * Z * Z * option Z * list (cop * (Z * Z * Z * Z))) : bool :=
+  let '(k, limit, mn, mx, steps) := c in c_check (c_init k limit mn mx) steps.
+
+(* ================================================================== *)
+(** * ConnectionPool  (components/client/connection_pool.py, after the repair
+      that counts the slot before the set-up delay)
+
+    [acquire()] is a generator with three shapes: an idle connection is taken
+    without any yield; a new connection is created (one yield of the set-up
+    latency); or the caller is queued and polls every [poll_interval] until the
+    connection handed over by a [release()] shows up or the timeout expires.
+    [polls] = number of poll ticks before the timeout (the float loop
+    [while elapsed < timeout: elapsed += poll_interval], computed by the harness). *)
+Record pstate := {
+  p_max : Z; p_min : Z; p_polls : Z;
+  p_idle : list (Z * Z);           (* _idle_connections: conn id, last_used_at *)
+  p_active : list Z;               (* _active_connections (insertion order) *)
+  p_total : Z;                     (* _total_connections *)
+  p_next_conn : Z;                 (* _next_connection_id *)
+  p_waiters : list (Z * Z);        (* _waiters: waiter id, client *)
+  p_next_waiter : Z;
+  p_granted : list (Z * Z);        (* callbacks fired, not yet seen by the polling client: client, conn *)
+  p_ticks : list (Z * Z);          (* poll ticks done per waiting client *)
+  p_creating : list Z;             (* clients inside _create_connection *)
+  p_created : Z; p_closed : Z; p_acq : Z; p_rel : Z; p_timeouts : Z;
+}.
+Definition p_init (mx mn polls : Z) : pstate :=
+  {| p_max := mx; p_min := mn; p_polls := polls; p_idle := []; p_active := []; p_total := 0;
+     p_next_conn := 0; p_waiters := []; p_next_waiter := 0; p_granted := []; p_ticks := [];
+     p_creating := []; p_created := 0; p_closed := 0; p_acq := 0; p_rel := 0; p_timeouts := 0 |}.
+
+Inductive pop :=
+| PAcqStart (c : Z)                (* first step of acquire() *)
+| PCreateDone (c : Z)              (* resume after the set-up latency *)
+| PPoll (c : Z)                    (* resume of a queued acquire after one poll interval *)
+| PRelease (c conn now : Z)        (* release(connection) *)
+| PIdleTimeout (conn expected : Z). (* _pool_idle_timeout event *)
+
+Inductive pres :=
+| PGot (conn : Z)                  (* acquire returned this connection *)
+| PCreating | PWaiting             (* acquire yielded *)
+| PTimeout                         (* TimeoutError *)
+| PHandoff (client : Z)            (* release gave the connection to this waiter *)
+| PIdle                            (* release put the connection into the idle pool *)
+| PClosed | PKept | PStale         (* idle timeout: closed / rescheduled / ignored *)
+| PNoop.
+
+Definition p_upd (s : pstate) (idle : list (Z * Z)) (active : list Z) (total : Z) : pstate :=
+  {| p_max := p_max s; p_min := p_min s; p_polls := p_polls s; p_idle := idle; p_active := active;
+     p_total := total; p_next_conn := p_next_conn s; p_waiters := p_waiters s; p_next_waiter := p_next_waiter s;
+     p_granted := p_granted s; p_ticks := p_ticks s; p_creating := p_creating s;
+     p_created := p_created s; p_closed := p_closed s; p_acq := p_acq s; p_rel := p_rel s;
+     p_timeouts := p_timeouts s |}.
+
+
+
+Definition p_step (s : pstate) (o : pop) : pstate * pres :=
+  match o with
+  | PAcqStart c =>
+      match p_idle s with
+      | (conn, _) :: rest =>
+          ({| p_max := p_max s; p_min := p_min s; p_polls := p_polls s; p_idle := rest;
+              p_active := p_active s ++ [conn]; p_total := p_total s; p_next_conn := p_next_conn s;
+              p_waiters := p_waiters s; p_next_waiter := p_next_waiter s; p_granted := p_granted s;
+              p_ticks := p_ticks s; p_creating := p_creating s; p_created := p_created s;
+              p_closed := p_closed s; p_acq := p_acq s + 1; p_rel := p_rel s; p_timeouts := p_timeouts s |},
+           PGot conn)
+      | [] =>
+          if p_total s <? p_max s then
+            ({| p_max := p_max s; p_min := p_min s; p_polls := p_polls s; p_idle := [];
+                p_active := p_active s; p_total := p_total s + 1; p_next_conn := p_next_conn s;
+                p_waiters := p_waiters s; p_next_waiter := p_next_waiter s; p_granted := p_granted s;
+                p_ticks := p_ticks s; p_creating := c :: p_creating s; p_created := p_created s;
+                p_closed := p_closed s; p_acq := p_acq s + 1; p_rel := p_rel s; p_timeouts := p_timeouts s |},
+             PCreating)
+          else
+            ({| p_max := p_max s; p_min := p_min s; p_polls := p_polls s; p_idle := [];
+                p_active := p_active s; p_total := p_total s; p_next_conn := p_next_conn s;
+                p_waiters := p_waiters s ++ [(p_next_waiter s + 1, c)]; p_next_waiter := p_next_waiter s + 1;
+                p_granted := p_granted s; p_ticks := (c, 0) :: p_ticks s; p_creating := p_creating s;
+                p_created := p_created s; p_closed := p_closed s; p_acq := p_acq s + 1; p_rel := p_rel s;
+                p_timeouts := p_timeouts s |},
+             PWaiting)
+      end
+  | PCreateDone c =>
+      if zmem c (p_creating s) then
+        let conn := p_next_conn s + 1 in
+        ({| p_max := p_max s; p_min := p_min s; p_polls := p_polls s; p_idle := p_idle s;
+            p_active := p_active s ++ [conn]; p_total := p_total s; p_next_conn := conn;
+            p_waiters := p_waiters s; p_next_waiter := p_next_waiter s; p_granted := p_granted s;
+            p_ticks := p_ticks s; p_creating := zremove c (p_creating s); p_created := p_created s + 1;
+            p_closed := p_closed s; p_acq := p_acq s; p_rel := p_rel s; p_timeouts := p_timeouts s |},
+         PGot conn)
+      else (s, PNoop)
+  | PPoll c =>
+      match assoc_find c (p_ticks s) with
+      | None => (s, PNoop)
+      | Some k =>
+          match assoc_find c (p_granted s) with
+          | Some conn =>
+              ({| p_max := p_max s; p_min := p_min s; p_polls := p_polls s; p_idle := p_idle s;
+                  p_active := p_active s; p_total := p_total s; p_next_conn := p_next_conn s;
+                  p_waiters := p_waiters s; p_next_waiter := p_next_waiter s;
+                  p_granted := assoc_remove c (p_granted s); p_ticks := assoc_remove c (p_ticks s);
+                  p_creating := p_creating s; p_created := p_created s; p_closed := p_closed s;
+                  p_acq := p_acq s; p_rel := p_rel s; p_timeouts := p_timeouts s |}, PGot conn)
+          | None =>
+              if k + 1 >=? p_polls s then
+                ({| p_max := p_max s; p_min := p_min s; p_polls := p_polls s; p_idle := p_idle s;
+                    p_active := p_active s; p_total := p_total s; p_next_conn := p_next_conn s;
+                    p_waiters := filter (fun w => negb (snd w =? c)) (p_waiters s);
+                    p_next_waiter := p_next_waiter s; p_granted := p_granted s;
+                    p_ticks := assoc_remove c (p_ticks s); p_creating := p_creating s;
+                    p_created := p_created s; p_closed := p_closed s; p_acq := p_acq s; p_rel := p_rel s;
+                    p_timeouts := p_timeouts s + 1 |}, PTimeout)
+              else
+                ({| p_max := p_max s; p_min := p_min s; p_polls := p_polls s; p_idle := p_idle s;
+                    p_active := p_active s; p_total := p_total s; p_next_conn := p_next_conn s;
+                    p_waiters := p_waiters s; p_next_waiter := p_next_waiter s; p_granted := p_granted s;
+                    p_ticks := (c, k + 1) :: assoc_remove c (p_ticks s); p_creating := p_creating s;
+                    p_created := p_created s; p_closed := p_closed s; p_acq := p_acq s; p_rel := p_rel s;
+                    p_timeouts := p_timeouts s |}, PWaiting)
+          end
+      end
+  | PRelease c conn now =>
+      if negb (zmem conn (p_active s)) then (s, PNoop)
+      else
+        match p_waiters s with
+        | (wid, w) :: rest =>
+            ({| p_max := p_max s; p_min := p_min s; p_polls := p_polls s; p_idle := p_idle s;
+                p_active := zremove conn (p_active s) ++ [conn]; p_total := p_total s;
+                p_next_conn := p_next_conn s; p_waiters := rest; p_next_waiter := p_next_waiter s;
+                p_granted := p_granted s ++ [(w, conn)]; p_ticks := p_ticks s; p_creating := p_creating s;
+                p_created := p_created s; p_closed := p_closed s; p_acq := p_acq s; p_rel := p_rel s + 1;
+                p_timeouts := p_timeouts s |}, PHandoff w)
+        | [] =>
+            ({| p_max := p_max s; p_min := p_min s; p_polls := p_polls s;
+                p_idle := p_idle s ++ [(conn, now)]; p_active := zremove conn (p_active s);
+                p_total := p_total s; p_next_conn := p_next_conn s; p_waiters := []; p_next_waiter := p_next_waiter s;
+                p_granted := p_granted s; p_ticks := p_ticks s; p_creating := p_creating s;
+                p_created := p_created s; p_closed := p_closed s; p_acq := p_acq s; p_rel := p_rel s + 1;
+                p_timeouts := p_timeouts s |}, PIdle)
+        end
+  | PIdleTimeout conn expected =>
+      match assoc_find conn (p_idle s) with
+      | None => (s, PStale)
+      | Some last =>
+          if negb (last =? expected) then (s, PStale)
+          else if p_total s >? p_min s then
+            ({| p_max := p_max s; p_min := p_min s; p_polls := p_polls s;
+                p_idle := assoc_remove conn (p_idle s); p_active := p_active s; p_total := p_total s - 1;
+                p_next_conn := p_next_conn s; p_waiters := p_waiters s; p_next_waiter := p_next_waiter s;
+                p_granted := p_granted s; p_ticks := p_ticks s; p_creating := p_creating s;
+                p_created := p_created s; p_closed := p_closed s + 1; p_acq := p_acq s; p_rel := p_rel s;
+                p_timeouts := p_timeouts s |}, PClosed)
+          else (s, PKept)
+      end
+  end.
+
+Fixpoint p_run (s : pstate) (ops : list pop) : pstate :=
+  match ops with [] => s | o :: r => p_run (fst (p_step s o)) r end.
+
+Definition pres_code (r : pres) : Z * Z :=
+  match r with
+  | PGot c => (0, c) | PCreating => (1, 0) | PWaiting => (2, 0) | PTimeout => (3, 0)
+  | PHandoff w => (4, w) | PIdle => (5, 0) | PClosed => (6, 0) | PKept => (7, 0) | PStale => (8, 0)
+  | PNoop => (9, 0)
+  end.
+
+(** observation: (code, arg, [total; pending; created; closed; acquisitions; releases; timeouts], idle ids, active ids) *)
+Definition pobs := (Z * Z * list Z * list Z * list Z)%type.
+Definition p_view (s : pstate) (r : pres) : pobs :=
+  (fst (pres_code r), snd (pres_code r),
+   [p_total s; Z.of_nat (length (p_waiters s)); p_created s; p_closed s; p_acq s; p_rel s; p_timeouts s],
+   map fst (p_idle s), p_active s).
+Definition pobs_eqb (a b : pobs) : bool :=
+  let '(c1, x1, k1, i1, a1) := a in let '(c2, x2, k2, i2, a2) := b in
+  (c1 =? c2) && (x1 =? x2) && zlist_eqb k1 k2 && zlist_eqb i1 i2 && zlist_eqb a1 a2.
+Fixpoint p_check (s : pstate) (steps : list (pop * pobs)) : bool :=
+  match steps with
+  | [] => true
+  | (o, ob) :: r => let '(s', res) := p_step s o in pobs_eqb (p_view s' res) ob && p_check s' r
+  end.
+Definition ok_pool (c : Z * Z * Z * list (pop * pobs)) : bool :=
+  let '(mx, mn, polls, steps) := c in p_check (p_init mx mn polls) steps.
